@@ -10,8 +10,9 @@ import (
 // localCell is an addressable local variable of the running activation(s) whose address never escapes: no callee
 // can reach it except through closures that are executed in context.
 type localCell struct {
-	addr Term
-	typ  types.Type
+	addr      Term
+	typ       types.Type
+	writeOnce bool // assigned once (initialisation) and only read afterwards: nothing in a loop body can change it
 }
 
 // allocEscapes: may code outside this unit's in-context execution obtain the address of the Alloc?
